@@ -8,7 +8,8 @@ mappings in storage), plus the list of admitted items at the end.  The history i
 reference occupancy list:
 
 * the occupancy reported after EVERY step equals the reference and is within the cap (`capOk`);
-* an admission adds exactly one fresh item (minus the evicted victim, which must have been present);
+* an admission adds exactly one fresh item (minus the evicted victim, which must have been present;
+  a victim that leaves in a step of its own is an `evi` event);
 * a refused request changes nothing: the occupancy is the one before it, and the harness saw no
   change of the state digest by any step of the refused request (`dirty = false`);
 * the items left at the end are exactly the reference list.
@@ -34,6 +35,8 @@ def specStep (zu : Bool) (limit : Nat) (s : SpecSt) : Ev → SpecSt
      s.good && !s.occ.contains item && s.occ.contains v && n == (s.occ.erase v).length + 1 && capOk zu limit n⟩
   | .rel _ item n =>
     ⟨s.occ.erase item, s.good && s.occ.contains item && n == (s.occ.erase item).length && capOk zu limit n⟩
+  | .evi _ v n =>
+    ⟨s.occ.erase v, s.good && s.occ.contains v && n == (s.occ.erase v).length && capOk zu limit n⟩
 
 def replay (zu : Bool) (limit pre : Nat) (tr : List Ev) : SpecSt :=
   tr.foldl (specStep zu limit) ⟨List.range pre, true⟩
@@ -56,5 +59,6 @@ def evOcc : Ev → Nat
   | .ref _ _ n => n
   | .adm _ _ _ n => n
   | .rel _ _ n => n
+  | .evi _ _ n => n
 
 end Tunnox.C17
